@@ -112,10 +112,13 @@ def body(case, ctx, tmp):
 
     csv1 = os.path.join(tmp, "m1.csv")
     csvo = os.path.join(tmp, "o.csv")
-    ev1 = MetricEvaluator(pm1, {"a": mk_metric("a"), "b": mk_metric("b")}, log=csv1, offset=3)
-    ev2 = MetricEvaluator(pm2, {"c": mk_metric("c")})
+    verbose = i % 4 == 2  # also run the printing paths (their output goes to the worker log)
+    ev1 = MetricEvaluator(pm1, {"a": mk_metric("a"), "b": mk_metric("b")}, log=csv1, verbose=verbose, offset=3)
+    ev2 = MetricEvaluator(pm2, {"c": mk_metric("c")}, verbose=verbose)
     obs = [SigmaZ(), NeighbourInteraction(c=1)]
-    evo = ObservableEvaluator(po, obs, log=csvo, num_samples=6, num_chains=3, burn_in=2, steps=1)
+    evo = ObservableEvaluator(po, obs, log=csvo, verbose=verbose, num_samples=6, num_chains=3, burn_in=2, steps=1)
+    if verbose:
+        ctx.count("runs_with_verbose_evaluators")
     orig_stats = evo.system.statistics
 
     def stats(nn_state, **k):
